@@ -390,6 +390,41 @@ def put_special(a):
             flat[i] = SPECIALS[i]
 
 
+def build_args(d, arr, c, rs, nelem):
+    """the array arguments of one call.  Gen kinds `htmid:RA,DEC,DEPTH` and `htmrev:ID` are PRECOMPUTED arguments derived from the
+    other arguments with esutil itself (the ids lookup_id returns for (RA, DEC); the reverse indices of histogram(ids - ids.min())),
+    then stored in an array of the case's dtype / byte order / layout: what a user who precomputes them passes."""
+    import numpy as np
+    args, later = {}, []
+    for p in arr:
+        k = d["gen"][p]
+        if k.startswith(("htmid:", "htmrev:")):
+            later.append(p)
+        else:
+            args[p] = make_array(k, c["dt"], c["order"], c["layout"], c["nd"], rs, nelem=nelem)
+    for p in sorted(later, key=lambda q: d["gen"][q].startswith("htmrev:")):
+        k = d["gen"][p]
+        ns = namespace()
+        if k.startswith("htmid:"):
+            ra, dec, depth = k[6:].split(",")
+            vals = ns["htm"].HTM(int(depth)).lookup_id(np.array(args[ra], dtype="f8").ravel(), np.array(args[dec], dtype="f8").ravel())
+            dt = c["dt"] if c["dt"] in ("i8", "u8") else "i8"          # ids do not fit narrower integers
+        else:
+            ids = np.array(args[k[7:]], dtype="i8").ravel()
+            vals = ns["stat"].histogram(ids - ids.min(), rev=True)[1]
+            # htmrev2 is handed to the C++ code WITHOUT conversion: anything but native contiguous int64 makes cbincount read
+            # garbage indices and crash (seen on HEAD: segmentation fault for a byte-swapped strided htmrev2; reported).  The
+            # reverse indices are therefore always generated in the one form the function supports; read-only / sequence / aliasing
+            # modes still apply to them.
+            a = np.ascontiguousarray(vals, dtype="i8").copy()
+            args[p] = a
+            continue
+        a = make_array("int", dt, c["order"], c["layout"], 1, rs, nelem=int(vals.size))
+        a[...] = vals
+        args[p] = a
+    return args
+
+
 NELEM = {"len1": 1, "long": 4099}        # 4099 = 2**12 + 3: beyond any plausible internal block size of the python / C layers
 
 
@@ -456,8 +491,10 @@ def variants(d, ctx, full):
     """the argument matrix of one driver: (dtype, order, layout, ndim, mode)"""
     orders = ["native", "swapped"] + (["mixed"] if d["dt"] == drv.REC else [])
     allv = [(dt, o, lay, nd, "plain") for dt in d["dt"] for o in orders for lay in ("contig", "strided") for nd in d["nd"]]
-    if full or len(allv) <= d["n"]:
+    if full:
         return allv + forms(d, full)
+    if len(allv) <= d["n"]:
+        return quick_trim(d, allv + forms(d, False))
     # quick tier: per ndim ALWAYS the corner in which NO conversion is needed (first dtype, native, contiguous: the only place
     # where a forgotten copy -- np.asarray / copy=None / astype(copy=False) -- hands the caller's own buffer to later in-place
     # code) and the most demanding corner (swapped + strided); then one corner per other dtype; then a seeded sample
@@ -476,7 +513,17 @@ def variants(d, ctx, full):
     must = list(dict.fromkeys(must))
     rest = [v for v in allv if v not in must]
     r.shuffle(rest)
-    return (must + rest)[:max(d["n"], len(must))] + forms(d, False)
+    return quick_trim(d, (must + rest)[:max(d["n"], len(must))] + forms(d, False))
+
+
+def quick_trim(d, out):
+    if d["fam"] == "recfile":
+        # quick: the generated writer option matrix has > 100 drivers; each keeps the corners that have caught something so far
+        # (native contiguous, swapped strided, read-only, swapped row slice of a parent, call sequence, -0.0 / NaN values)
+        keep = lambda v: (v[4] == "plain" and (v[1], v[2]) in (("native", "contig"), ("swapped", "strided"), ("swapped", "slice"))) \
+            or v[4] in ("ro", "seq", "special")
+        out = [v for v in out if keep(v)]
+    return out
 
 
 class Dyn(Entry):
@@ -544,16 +591,16 @@ class Dyn(Entry):
         nelem = NELEM.get(mode, 6)
         if mode == "long" and d["dt"] == drv.REC:
             nelem = 515           # 2**9 + 3 rows of a table (a 4099-row table is a 0.6 MB literal: coqc's parser overflows its stack)
-        for p in arr:
-            args[p] = make_array(d["gen"][p], c["dt"], c["order"], c["layout"], c["nd"], rs, nelem=nelem)
+        args.update(build_args(d, arr, c, rs, nelem))
         checked = [p for p in arr if p not in d["exempt"]]
         if mode == "special":                                   # bit patterns that a "harmless" normalisation would rewrite
             for p in arr:
                 if d["gen"][p] not in NO_SPECIAL:
                     put_special(args[p])
         if mode.startswith("alias") and len(checked) >= 2:      # the SAME array object for every non-exempt array parameter
-            src = args[checked[0] if mode.startswith("alias0") else checked[-1]]
-            for p in checked:
+            plain_ps = [p for p in checked if not d["gen"][p].startswith(("htmid:", "htmrev:"))]     # precomputed arguments stay consistent
+            src = args[plain_ps[0] if mode.startswith("alias0") else plain_ps[-1]]
+            for p in plain_ps:
                 args[p] = src
         if mode.endswith("ro"):                                 # read-only: the view and the buffer it looks into
             for p in checked:
@@ -637,8 +684,7 @@ class Dyn(Entry):
         import numpy as np
         fixed = {p: A[p] for p in A if p not in arr}
         B = dict(fixed)
-        for p in arr:
-            B[p] = make_array(d["gen"][p], c["dt"], c["order"], c["layout"], c["nd"], rs, nelem=nelem)
+        B.update(build_args(d, arr, c, rs, nelem))
         out = {"error": None, "args": {}, "exempt_changed": [], "ro_write_attempt": False, "ret_shares": [], "steps": []}
         keep = []
 
@@ -657,7 +703,9 @@ class Dyn(Entry):
         r1 = step("1", A, {"A": A})
         out["ret_shares"] = sorted(p for p in checked if out["error"] is None and shares(r1, A[p]))
         step("2", B, {"A": A, "B": B})
-        for p in checked:                       # the caller's own, legitimate, in-place change of A between two calls
+        derived = any(d["gen"][p].startswith(("htmid:", "htmrev:")) for p in arr)
+        for p in ([] if derived else checked):   # the caller's own, legitimate, in-place change of A between two calls
+            # (not for precomputed arguments: ids / reverse indices must stay consistent with the positions, cbincount trusts them)
             try:
                 A[p][...] = B[p]
             except Exception:
@@ -773,7 +821,7 @@ def D(n):
     return BY_NAME[n] if n in BY_NAME else SEQ[n]
 
 
-SEQ_QUICK_MAX = 300      # quick tier: sequence obligations only for drivers whose single-call skeleton has at most this many statements
+SEQ_QUICK_MAX = 100      # quick tier: sequence obligations only for drivers whose single-call skeleton has at most this many statements
 
 
 def extract_one(ctx, d):
